@@ -145,7 +145,7 @@ func (cs *caseRun) reqLine(c int, req *base.Request) string {
 		if sp, _, trackID, err := gortsplib.VerifGetPathAndQueryAndTrackID(req.URL); err == nil {
 			setupPath = itoa(cs.paths.id(sp))
 			setupKnown = sp == streamPath
-			if m := gortsplib.VerifFindMediaByTrackID(ts.stream.Desc.Medias, trackID); m != nil {
+			if m := findMedia(ts.stream.Desc.Medias, trackID); m != nil {
 				for i, mm := range ts.stream.Desc.Medias {
 					if mm == m {
 						track = itoa(i)
@@ -189,6 +189,17 @@ func (cs *caseRun) reqLine(c int, req *base.Request) string {
 	return fmt.Sprintf("hostile req %d %s %s %s %s %d %s %s %s %s %s %s %s %d %s %s",
 		c, methodName(req.Method), b01(cseq), b01(req.URL != nil), sess, path, b01(known), ctype, sdp, trs,
 		setupPath, b01(setupKnown), track, recPath, recCtl, b01(keyMgmt))
+}
+
+// findMedia asks the library which media a track selector names.  A panic in there is not the classifier's
+// to report (see mikeyAccepted): the request is on its way to the server.
+func findMedia(medias []*description.Media, trackID string) (m *description.Media) {
+	defer func() {
+		if recover() != nil {
+			m = nil
+		}
+	}()
+	return gortsplib.VerifFindMediaByTrackID(medias, trackID)
 }
 
 // mikeyAccepted asks the library whether mikeyToContext accepts the message.  A panic in there is
